@@ -301,7 +301,7 @@ def _safe_remove(el: etree.Element):
 
 
 def _id_of_target(url):
-    match = re.match(r"^url[(]#([\w-]+)[)]$", url)
+    match = re.match(r"^url[(]#([^\s)]+)[)]$", url)
     if not match:
         raise ValueError(f'Unrecognized url "{url}"')
     return match.group(1)
